@@ -206,6 +206,45 @@ func (r *rw) prepass() {
 	})
 }
 
+// rmwField splits `x.f++`, `x.f--` and `x.f op= e` on a struct field into a
+// read, a scheduling point and a write, for the same reason as rmwAppend.
+func (r *rw) rmwField(st ast.Stmt, lhsE ast.Expr, tok token.Token, rhs ast.Expr) (string, bool) {
+	if !r.dense || !r.inList[st] {
+		return "", false
+	}
+	sel, ok := lhsE.(*ast.SelectorExpr)
+	if !ok || r.info.Selections[sel] == nil {
+		return "", false
+	}
+	pure := true
+	ast.Inspect(sel.X, func(n ast.Node) bool {
+		switch n.(type) {
+		case *ast.CallExpr, *ast.UnaryExpr:
+			pure = false
+		}
+		return pure
+	})
+	if !pure {
+		return "", false
+	}
+	ops := map[token.Token]string{
+		token.INC: "+", token.DEC: "-",
+		token.ADD_ASSIGN: "+", token.SUB_ASSIGN: "-", token.MUL_ASSIGN: "*", token.QUO_ASSIGN: "/", token.REM_ASSIGN: "%",
+		token.AND_ASSIGN: "&", token.OR_ASSIGN: "|", token.XOR_ASSIGN: "^", token.SHL_ASSIGN: "<<", token.SHR_ASSIGN: ">>", token.AND_NOT_ASSIGN: "&^",
+	}
+	op, ok := ops[tok]
+	if !ok {
+		return "", false
+	}
+	lhs := string(r.src[r.off(sel.Pos()):r.off(sel.End())])
+	operand := "1"
+	if rhs != nil {
+		operand = "(" + r.render(rhs) + ")"
+	}
+	r.count("rmw-field")
+	return fmt.Sprintf("{ __rd := %s; simrt.Point(%q); %s = __rd %s %s }", lhs, r.label(st)+"/rmw", lhs, op, operand), true
+}
+
 // rmwAppend recognises `x.f = append(x.f, ...)` on a struct field: a
 // read-modify-write that is one statement. Under statement-granular scheduling
 // two goroutines could never interleave inside it, so an unsynchronised update
@@ -325,9 +364,19 @@ func (r *rw) rewriteNode(n ast.Node) (string, bool) {
 			}
 		}
 		return "", false
+	case *ast.IncDecStmt:
+		if rep, ok := r.rmwField(x, x.X, x.Tok, nil); ok {
+			return rep, true
+		}
+		return "", false
 	case *ast.AssignStmt:
 		if rep, ok := r.rmwAppend(x); ok {
 			return rep, true
+		}
+		if len(x.Lhs) == 1 && len(x.Rhs) == 1 && x.Tok != token.ASSIGN && x.Tok != token.DEFINE {
+			if rep, ok := r.rmwField(x, x.Lhs[0], x.Tok, x.Rhs[0]); ok {
+				return rep, true
+			}
 		}
 		if len(x.Lhs) == 2 && len(x.Rhs) == 1 {
 			if u, ok := isRecv(x.Rhs[0]); ok {
